@@ -61,7 +61,8 @@ fn c13_category_bignum() {
     let heap = heap4();
     let mut arena = Arena::new().unwrap();
     let v: i64 = kani::any();
-    let p = crate::arena::AllocateInArena::arena_allocate(crate::parser::dashu::Integer::from(v), &mut arena);
+    let p: TypedArenaPtr<crate::parser::dashu::Integer> =
+        crate::arena::AllocateInArena::arena_allocate(crate::parser::dashu::Integer::from(v), &mut arena);
     let c = typed_arena_ptr_as_cell!(p);
     assert!(c.order_category(&heap) == Some(Cat::Integer));
     std::mem::forget(heap);
